@@ -73,8 +73,8 @@ FAMILY = {
 
 def plan(tier: str) -> dict:
     if tier == "thorough":
-        return {"shards": 16, "examples": 120, "pairs": 10, "exec_leaves": 200}
-    return {"shards": 16, "examples": 14, "pairs": 6, "exec_leaves": 60}
+        return {"shards": 16, "examples": 300, "pairs": 10, "exec_leaves": 200}
+    return {"shards": 16, "examples": 24, "pairs": 6, "exec_leaves": 60}
 
 
 # {{{ fault injection on the JSON
@@ -572,4 +572,10 @@ def _forward_pred(c10case, failure) -> bool:
     return case is not None and distsim.forwards_bare_recv(case)
 
 
-KNOWN_PREDICATES = {"forward_bare_recv": _forward_pred}
+def _holder_leak_pred(c10case, failure) -> bool:
+    case = apply_faults(c10case["base"], c10case.get("faults") or [])
+    return case is not None and distsim.holder_payload_dep_leak(case)
+
+
+KNOWN_PREDICATES = {"forward_bare_recv": _forward_pred,
+                    "holder_payload_dep_leak": _holder_leak_pred}
